@@ -2,6 +2,7 @@
    The per-property list of theorem names the check insists on is coq/obligations.json. *)
 From Coq Require Import ZArith List.
 From Coq Require Import NArith.
+From Cqos Require Prio1 Prio1P Prio1D4.
 From Cqos Require Import Base RateConv RateConvP Divider DividerP Sched Float64 Utils UtilsP.
 Open Scope Z_scope.
 
@@ -109,3 +110,16 @@ Theorem C18_refuted_old :
   is_nonfatal (7 :: 5 :: 3 :: 1 :: nil) (rate part_q) 8 = false.
 Proof. exact refuted_old_nonfatal. Qed.
 Print Assumptions C18_refuted_old.
+
+(* ---------------------------------------------------------------- C06, v1: the recorded known finding as a witness *)
+Theorem C06_v1_refuted :
+  Prio1.strategic Prio1D4.d4_s0 = ((3, 1) :: (2, 0) :: (1, 0) :: nil)%N /\
+  Prio1.reachable true Prio1D4.d4_dv Prio1D4.d4_s0 Prio1D4.d4_s1 /\ Prio1.inq Prio1D4.d4_s1 2%nat = (7 :: nil)%N /\
+  sum (Prio1.actual Prio1D4.d4_s1) = 0%N /\
+  forall n, In n (10 :: 100 :: 500 :: 1000 :: 2000 :: nil)%nat ->
+    match Prio1D4.d4_after n with
+    | Some s => Prio1.delivered s = nil /\ Prio1.inq s 2%nat = (7 :: nil)%N /\ sum (Prio1.actual s) = 0%N /\ Prio1.stopped s = false
+    | None => False
+    end.
+Proof. exact Prio1D4.C06_v1_zero_share_starves. Qed.
+Print Assumptions C06_v1_refuted.
